@@ -130,7 +130,8 @@ func runThrottle(sc thrScen, idx int) (map[string]any, error) {
 		rec.ID, rec.Sink, rec.T0 = fmt.Sprintf("%d", c+1), shared, shared.T0
 		o := &one{rec: rec}
 		conns[c] = o
-		scn := &vh.ScriptConn{Rec: rec, Slen: slen, EndKind: "eof", Start: time.Now(), Unit: time.Hour,
+		// in every other scenario the last bytes arrive together with the end of the stream
+		scn := &vh.ScriptConn{Rec: rec, Slen: slen, EndKind: "eof", EOFWithData: sc.Via == "direct" && idx%2 == 1, Start: time.Now(), Unit: time.Hour,
 			Remote: &net.TCPAddr{IP: net.IPv4(10, 3, byte(idx%250), byte(c+1)), Port: 30000 + c}}
 		cx := layer4.WrapConnection(scn, nil, zap.NewNop())
 		wg.Add(1)
